@@ -302,13 +302,16 @@ impl LazyFormatContext {
                 #[cfg(feature = "expression")] Some(functions),
                 #[cfg(feature = "expression")] Some(parameters)
             );
-            *self.data.lock().unwrap() = Some(context);
+            *self.data.lock().unwrap_or_else(|poisoned| poisoned.into_inner()) = Some(context);
             #[cfg(feature = "verif_hooks")]
             crate::verif_hooks::point("format_context.init.end");
         });
         #[cfg(feature = "verif_hooks")]
         crate::verif_hooks::point("format_context.get.before_lock");
-        self.data.lock().unwrap()
+        // A panic in code that runs while the guard is held (for example a tag
+        // summarizer called during formatting) must not disable the registry
+        // for the rest of the process: the data is still valid, so recover it.
+        self.data.lock().unwrap_or_else(|poisoned| poisoned.into_inner())
     }
 }
 
